@@ -9,13 +9,13 @@ checks = {
    text="Held on every generated (stream set × reader configuration) execution of the real ZNG writer/reader built with -race: output sequence equals input sequence position by position on harness-computed type strings and value bytes; the race detector and poison-on-release make stale-buffer use and unsynchronized worker state observable. Exploration is the right level because the quantifier (inputs × configurations × worker schedules) is unbounded.",
    note="trusts the harness generator/printer (internal/gen) and the Go race detector; worker interleavings are those the scheduler plus injected delays produced (counted in evidence), not all of them"),
  "C14": dict(level="exploration", design="DESIGN.md §3 C14",
-   technique="runtime monitor: model-based history checker (object-level reference model, independent reads of stored objects and seek indexes) over exhaustive short and random long lake histories on an instrumented in-memory storage engine",
-   text="Held on every explored history step: branch query multiset, metadata listing, per-object count/key range/sortedness, seek-index tiling and pool-key order of the scan agree with a reference model that learns object contents straight from storage; checked from the acting handle and a cold one, with object-store and file semantics. Exploration is the right level: histories × inputs × configurations are unbounded; short histories over a 9-op alphabet are enumerated exhaustively.",
+   technique="runtime monitor: model-based history checker (object-level reference model, independent reads of stored objects and seek indexes) over exhaustive short and random long lake histories on an instrumented in-memory storage engine, plus histories on a real directory (the repository's own file engine) with `super db manage` steps run through the `super` binary built from the same tree",
+   text="Held on every explored history step: branch query multiset, metadata listing, per-object count/key range/sortedness, seek-index tiling and pool-key order of the scan agree with a reference model that learns object contents straight from storage; checked from the acting handle and a cold one, with object-store and file semantics; `super db manage` passes (compaction planner of cmd/super/internal/lakemanage, reachable only through the binary) must leave the values, order and metadata intact. Exploration is the right level: histories × inputs × configurations are unbounded; short histories over a 9-op alphabet are enumerated exhaustively.",
    note="trusts the harness model (internal/lk/model.go), its own key order for the generated key domain (numbers < strings < null/missing) and the ZNG reader used to read stored objects (C01); built without -race (single client; see DESIGN.md §2.2)"),
  "C17": dict(level="fault_enumeration", design="DESIGN.md §3 C17",
-   technique="runtime fault injection: fail-stop crash enumerated at every storage operation (and every write prefix / half-applied write on file semantics) of the victim operation, on an instrumented storage engine; recovery oracle = cold reopen, before-or-after state (row contents per branch plus the vector objects the branch lists, each decoded and compared with its data object), fixed follow-up workload",
+   technique="runtime fault injection: fail-stop crash enumerated at every storage operation (and every write prefix / half-applied write on file semantics) of the victim operation, on an instrumented storage engine (two in-memory back ends and the repository's real file engine on a scratch directory); recovery oracle = cold reopen, before-or-after state (row contents per branch plus the vector objects the branch lists, each decoded and compared with its data object), fixed follow-up workload",
    text="For every explored (history, victim operation, back end) the crash point is enumerated over the victim's whole storage trace; after each crash a cold handle must open the lake, read every pool and branch, observe exactly the before- or after-state (as observed on uncrashed clones) and complete a fixed follow-up workload; double crashes are sampled. Fault enumeration is the right level because the quantifier is 'every storage operation of every mutation'.",
-   note="fail-stop model (the crashing operation and all later ones have no effect, optionally a half-applied write); durable, ordered storage; the file back end is a model of pkg/storage/file.go (truncate-then-write Put, create-then-fill PutIfNotExists); built without -race"),
+   note="fail-stop model (the crashing operation and all later ones have no effect, optionally a half-applied write); durable, ordered storage; the in-memory file back end is a model of pkg/storage/file.go (truncate-then-write Put, create-then-fill PutIfNotExists); the realfs kinds run the same enumeration on a scratch directory through pkg/storage/file.go itself (its PutIfNotExists and DeleteByPrefix are single operations there); built without -race"),
  "C08": dict(level="exploration", design="DESIGN.md §3 C08",
    technique="runtime monitor: differential oracle (parallelism 1 vs 2,3,8,16 × GOMAXPROCS 1,2,16) over generated pools and programs with order-aware comparison modes, Go race detector, scan-leg hook counters",
    text="Held on every generated (pool, program, parallelism, GOMAXPROCS) execution: the result at parallelism p equals the result at 1 in the program's comparison mode (exact sequence where the language defines a total order, pool-key order + multiset for ordered scans, multiset with normalised collect/union otherwise); the race detector watches the scan legs. Exploration is right because programs × pools × schedules are unbounded.",
@@ -25,7 +25,7 @@ checks = {
    text="Compares the vector runtime with the sequential runtime on generated data and programs. On the pinned tree the vector runtime disagrees broadly (see known_findings.json: C09-*); the check holds those as known findings keyed by (operator family, kind of disagreement) and alarms on any family/kind not listed, on a difference after vector delete, or on a hang.",
    note="union/enum columns excluded (C03 findings crash the vector cache); programs the vector compiler rejects are outside the claim; built without -race"),
  "C12": dict(level="exploration", design="DESIGN.md §3 C12",
-   technique="runtime monitor: operation-level deterministic scheduler over an instrumented storage engine (exhaustive single-preemption pair schedules + random segment schedules), recorded call/return history checked against the branch's commit chain and a value-level replay, porcupine linearizability check of the pool-name table, mid-schedule cold-handle probes, race detector on a shared-handle stress part",
+   technique="runtime monitor: operation-level deterministic scheduler over an instrumented storage engine (exhaustive single-preemption pair schedules + random segment schedules), recorded call/return history checked against the branch's commit chain and a value-level replay, porcupine linearizability check of the pool-name table, mid-schedule cold-handle probes, race detector on a shared-handle stress part; a sample of the pair schedules runs on a real directory through pkg/storage/file.go (one FileSystem per client)",
    text="For every executed schedule: every acknowledged commit is exactly once in main's chain, no commit of an unacknowledged operation is in it, chain order respects real-time order, the final contents equal the replay of the acknowledged operations in chain order, other branches are untouched, every branch is readable from a cold handle at every schedule switch and at the end, and the pool create/rename/drop history is linearizable (porcupine). Exploration with enumerated single-preemption schedules is the right level: the quantifier is over interleavings of storage operations.",
    note="interleavings at storage-operation granularity (not instruction granularity); clients are separate lake handles; starvation of the journal's bounded retry loop counts as a reported failure; scheduled parts run without -race, the shared-handle stress part with it"),
  "C13": dict(level="exploration", design="DESIGN.md §3 C13",
@@ -73,7 +73,7 @@ checks = {
    text="Group-by emits exactly one row per distinct key with the aggregate over exactly that group's rows, and join emits the nested-loop pair set, independently of input order, spilling, declared sortedness and partial composition.",
    note="aggregate arithmetic itself is cross-checked only for count/sum/min/max on integers; rows with a missing join key are outside the claim"),
  "C11": dict(level="exploration", design="DESIGN.md §3 C11",
-   technique="runtime monitor: structured mutation of valid encodings and query texts fed to every reader and to the compiler in a helper process; oracles: no panic/fatal, watchdog-confirmed termination, allocation bound, goroutine leak check, independent structural walk of validated values",
+   technique="runtime monitor: structured mutation of valid encodings and query texts, grammar-generated programs with typed constants in every argument slot and an exhaustive (argument slot × typed constant) sweep, fed to every reader and to the compiler in a helper process; oracles: no panic/fatal, watchdog-confirmed termination, allocation bound, goroutine leak check, independent structural walk of validated values",
    text="Every mutant either decodes or errors: no panic escapes the reader's own calls, no fatal error, the call returns (a hang is confirmed by a solo re-run), allocations stay within the stated bound, no reader goroutine is left, and with Validate on every value passes an independent structural walk.",
    note="recover scope is the reader call only (consumer-side panics are outside the claim); leaf widths are not demanded of Validate"),
  "C18": dict(level="fault_enumeration", design="DESIGN.md §3 C18",
@@ -93,7 +93,7 @@ hooks_commits = subprocess.run(["git","-C","/repo","log","--format=%H %s"],captu
 hook_commits = [l.split()[0] for l in hooks_commits if " verif hooks" in l]
 m = {
  "version": 1,
- "setup_cmd": f"export {ENV}; mkdir -p bin .cache && go build -o bin/check ./cmd/check && go build -race -tags verif -o .cache/mon-warm ./mon && rm -f .cache/mon-warm",
+ "setup_cmd": f"export {ENV}; mkdir -p bin .cache && go build -o bin/check ./cmd/check && go build -race -tags verif -o .cache/mon-warm ./mon && rm -f .cache/mon-warm && go build -o .cache/super-C14 github.com/brimdata/super/cmd/super",
  "hooks": {
    "guard": "verif",
    "enable": "go build -race -tags verif (done by bin/check for every run, through `replace github.com/brimdata/super => /repo` in /verif/go.mod)",
